@@ -468,6 +468,7 @@ func c16Case(src string, classes []string, stream string, r *Result, model *Mode
 	// (2) both implementations on the same program
 	ev := RunEvy(src, RunOpts{YieldBudget: 5_000_000})
 	vm := c16RunVM(c, 5*time.Second)
+	c16ModelVM(c, vm, in, r, c16VMModel)
 	r.Count(src, c17HasJump(c.Code))
 	r.Validated++
 	r.Dist(stream + ":eval-" + ev.Class + "/vm-" + vm.Class)
@@ -593,7 +594,16 @@ var c16Known = []struct {
 	}() + "end\n"},
 }
 
+// the Vm.v model process (nil when it could not be started)
+var c16VMModel *Model
+
 func runC16(cfg Config, r *Result) {
+	if m, err := StartModelBig("vmrun"); err == nil {
+		c16VMModel = m
+		defer m.Close()
+	} else {
+		r.Violate(Violation{Kind: "correspondence", Key: "model-start", Detail: err.Error()})
+	}
 	r.Rule = "generated evy programs (same generator as C17: declarations, assignment, arithmetic, strings, arrays, maps, index, slice, if/else-if/else, while, break, for over ranges/arrays/strings/maps, nested). For each: the set of AST nodes Compile has no translation for is read off the parsed tree; if non-empty, Compile must return an error (else: unsupported-silently-dropped). Otherwise the program is run on the real evaluator (recording platform, yield budget) and compiled and run on the real VM (recover, time limit): run-time errors must correspond by sentinel (division/modulo by zero may be a VM-only error), and every evaluator global (by name; numbers as IEEE bit patterns, strings exactly, arrays/maps structurally) must have the same value on the VM (Compiler.VerifGlobalSymbols + VM.VerifGlobalRepr). The main stream avoids the recorded VM divergence classes; a second stream enables exactly one class per program (keys vm-<class>). In addition the Compile.v model is compared with the real compiler byte for byte and constant for constant on the AST exported from Go. non-trivial = the emitted code contains a jump or range instruction (or: the program is outside the subset); distinct = distinct program text"
 	if cfg.Replay != "" {
 		b, err := os.ReadFile(cfg.Replay)
